@@ -4,6 +4,7 @@ package corr
 //
 // ops:   cfg sender=<u32> media=<u32>      fresh recorder (default sender=16909060 media=168496141)
 //        rec seq=<u16> t=<int64 µs> [ssrc=<u32>]
+//        recrun seq=<u16> t=<int64> n=<1..40000> dt=<int64> step=<1..1000>   n records: seq+i*step at t+i*dt
 //        build
 // observable per build: `build n=<packets>` and, for every returned rtcp.TransportLayerCC, after
 // Marshal -> Unmarshal by the real pion/rtcp, one `fb …` line (see c05FbLine).
@@ -248,43 +249,83 @@ var c05Classes = []string{
 	"dup", "buildevery", "reftime", "mixed", "runs", "edge",
 }
 
-// c05Giant: tens of thousands of records with two-byte deltas and (almost) no build: the only way to
-// reach the size split of one feedback packet (F-33). One case in two thousand.
+// c05Giant: tens of thousands of records and (almost) no build: the only way to reach the size
+// split of one feedback packet (maxDeltaBytes = 48 KiB of recv deltas, F-33/F-37). The records are
+// written as `recrun` ops so that a case stays a few dozen lines. The generator keeps its own count of
+// the delta bytes (1 for a spacing below 63.75 ms, 2 otherwise) and puts losses around the number at
+// which the packet is full: either a stretch where every other number is lost (whatever the exact split
+// point, the packet that no longer fits is preceded by a lost number) or one loss burst of drawn
+// length at the estimated split point -1/0/+1. Ranges of the two packets of the build must not overlap.
 func c05Giant(r *Rng) Case {
-	n := r.Range(24000, 33500)
-	g := &c05Gen{r: r, max: n + 8, budget: 1 << 40}
-	g.seq = r.Intn(65536) + 65536*4
-	g.t = int64(r.Pick(0, 1000, 123456789))
-	g.pBuild = 0
-	mode := r.Intn(3)
-	at := r.Range(1, n)
-	for i := 0; i < n; i++ {
-		g.rec(g.seq, g.t)
-		g.seq++
-		switch mode {
-		case 0:
-			g.t += int64(r.Pick(64000, 70000, 100000))
-		case 1: // alternate far forward / back: every delta is large, half of them negative
-			if i%2 == 0 {
-				g.t += 200000
-			} else {
-				g.t -= 100000
-			}
-		default:
-			g.t += int64(r.Pick(1000, 64000, 64000, 70000))
+	var ops []string
+	seq := r.Intn(65536)
+	t := int64(r.Pick(0, 1000, 100000, 123456789))
+	emit := func(n int, dt int64, step int) {
+		if n <= 0 {
+			return
 		}
-		if i == at && r.Chance(1, 2) {
-			g.build()
-		}
+		ops = append(ops, fmt.Sprintf("recrun seq=%d t=%d n=%d dt=%d step=%d", seq%65536, t, n, dt, step))
+		seq += n * step
+		t += int64(n) * dt
 	}
-	g.build()
-	g.steady(3, 1000)
-	g.build()
-	return Case{Class: "giant", Ops: g.ops}
+	if r.Chance(1, 4) {
+		ops = append(ops, fmt.Sprintf("cfg sender=%d media=%d", r.U64()&0xFFFFFFFF, r.U64()&0xFFFFFFFF))
+	}
+	rounds := r.Pick(1, 1, 2)
+	for k := 0; k < rounds; k++ {
+		small := int64(r.Pick(0, 250, 1000, 20000, 60000))
+		large := int64(r.Pick(64000, 70000, 100000, 8000000))
+		nSmall := r.Pick(0, 0, 1, 500, 3000, 8000, 14000) // one-byte deltas first: the split point moves
+		// delta bytes after the i-th record of this build (0-based): the very first delta is relative to
+		// the 64 ms reference (one byte, as t0 % 64 ms is small here); the next nSmall are small, the rest large.
+		// the record with index `fit` is the first that does not fit any more.
+		bytes, fit := 0, 0
+		for bytes < 49152 {
+			if fit == 0 || fit <= nSmall {
+				bytes++
+			} else {
+				bytes += 2
+			}
+			fit++
+		}
+		mode := r.Intn(4)
+		switch mode {
+		case 0, 1: // every other number lost in a stretch around the split point
+			half := r.Pick(3, 10, 40)
+			emit(nSmall, small, 1)
+			emit(fit-half-nSmall, large, 1)
+			emit(2*half, large, r.Pick(2, 2, 3))
+			emit(r.Range(0, 600), large, 1)
+		case 2: // one loss burst of drawn length at the estimated split point
+			emit(nSmall, small, 1)
+			emit(fit+r.Pick(-1, 0, 0, 0, 1)-nSmall, large, 1)
+			seq += r.Pick(1, 1, 2, 3, 7, 8, 14, 15, 40, 200)
+			emit(r.Range(1, 600), large, 1)
+		default: // no loss at all, or a build in the middle
+			emit(nSmall, small, 1)
+			cut := r.Range(1, fit-nSmall)
+			emit(cut, large, 1)
+			if r.Chance(1, 2) {
+				ops = append(ops, "build")
+			}
+			emit(fit-nSmall-cut+r.Range(0, 600), large, 1)
+		}
+		ops = append(ops, "build")
+		// a late packet inside the reported range: everything above it is reported again
+		if r.Chance(1, 3) {
+			ops = append(ops, fmt.Sprintf("rec seq=%d t=%d", (seq-r.Range(2, 30000)+65536*4)%65536, t))
+			ops = append(ops, "build")
+		}
+		t += int64(r.Pick(1000, 70000, 600000))
+	}
+	emit(3, 1000, 1)
+	ops = append(ops, "build")
+	return Case{Class: "giant", Ops: ops}
 }
 
 func c05Case(r *Rng, tier string, idx int) Case {
-	if idx%2000 == 777 {
+	// 8 giant cases in the quick tier (1000 cases), 1 in 1000 in the thorough tier (cost)
+	if (tier != "thorough" && idx%125 == 77) || (tier == "thorough" && idx%1000 == 777) {
 		return c05Giant(r)
 	}
 	cl := c05Classes[idx%len(c05Classes)]
@@ -468,6 +509,20 @@ func c05Run(_ *testing.T, ops []string, o *Out) {
 				continue
 			}
 			rec.Record(uint32(ssrc), uint16(seq), t)
+		case name == "recrun" && len(f) == 6:
+			// n records: number seq+i*step (mod 2^16) at time t+i*dt
+			seq, ok1 := c05ParseU(m["seq"], 65535)
+			t, ok2 := c05ParseI(m["t"])
+			n, ok3 := c05ParseU(m["n"], 40000)
+			dt, ok4 := c05ParseI(m["dt"])
+			step, ok5 := c05ParseU(m["step"], 1000)
+			if !ok1 || !ok2 || !ok3 || !ok4 || !ok5 || n == 0 || step == 0 || dt > 1<<40 || dt < -(1<<40) {
+				o.P("bad-op")
+				continue
+			}
+			for i := uint64(0); i < n; i++ {
+				rec.Record(media, uint16(seq+i*step), t+int64(i)*dt)
+			}
 		case op == "build":
 			pkts := rec.BuildFeedbackPacket()
 			o.P("build n=%d", len(pkts))
